@@ -31,10 +31,10 @@ ALL_ROUTES = ["new", "must", "text", "json", "scan_s", "scan_b"]
 
 
 def tlc_message(ctx, name, *, data=(), comments=(), ids=(), types=(), routes=("new",), texts=(), retries=(), max_msgs=1, max_ops=3,
-                max_appends=1, any_target=False, cap_clone=True, view_hist=False, auto_data=False, invariants=None, timeout=1800, expect_violation=False, export=True):
+                max_appends=1, any_target=False, cap_clone=True, view_hist=False, auto_data=False, field_once=True, invariants=None, timeout=1800, expect_violation=False, export=True):
     consts = dict(DataStrs=sset(data), CommentStrs=sset(comments), IdStrs=sset(ids), TypeStrs=sset(types), Routes=strset(routes),
                   TextStrs=sset(texts), RetryClasses=strset(retries), MaxMsgs=max_msgs, MaxOps=max_ops, MaxAppends=max_appends,
-                  AnyTarget=any_target, CapClone=cap_clone, ViewHist=view_hist, AutoData=auto_data)
+                  AnyTarget=any_target, CapClone=cap_clone, ViewHist=view_hist, AutoData=auto_data, FieldOnce=field_once)
     invs = invariants if invariants is not None else ["NoInjection", "ChunksSingleLine", "FieldsSingleLine", "RoundTrip", "NoAliasing"]
     d = core.write_mc(ctx, name, "Message", consts, invariants=list(invs) + (["Export"] if export else []), view="View")
     return core.run_tlc(ctx, d, name, timeout=timeout, expect_violation=expect_violation)
@@ -98,8 +98,9 @@ def plan_payloads(ctx, q):
     return [
         ("data", dict(data=all_strs(HOSTILE, L), ids=[X, LOOKALIKE], types=[X], max_ops=3, max_appends=1)),
         ("appends", dict(data=all_strs(HOSTILE[:6] + ["x"], 2), comments=all_strs(["CR", "LF", "COLON", "SP", "x", "data"], 2), max_ops=2, max_appends=2)),
-        ("ids", dict(data=[X], ids=all_strs(HOSTILE, L), types=[X], max_ops=3, max_appends=1)),
-        ("types", dict(data=[X], ids=[X], types=all_strs(HOSTILE, L), max_ops=3, max_appends=1)),
+        # every input matters here, also those that leave the value unset: explore every operation sequence
+        ("ids", dict(data=[X], ids=all_strs(HOSTILE, L), types=[], max_ops=2, max_appends=1, view_hist=True)),
+        ("types", dict(data=[X], ids=[], types=all_strs(HOSTILE, L), max_ops=2, max_appends=1, view_hist=True)),
         ("families", dict(data=[X, INJECT, INJECT2, ["LF"], []], comments=[["x", "LF", "data", "COLON", "y"]], ids=ids2[:3], types=[X, ["data"]],
                           retries=["ms1", "neg"], max_msgs=2 if q else 3, max_ops=2 if q else 3, max_appends=1)),
     ]
@@ -152,7 +153,7 @@ def run_C14(ctx):
     drive_message(ctx, r.stdout_path, "texts", agg, every=11, faults=False)
     # a value set through one route, then replaced through another; and carried by a message with payload
     r = tlc_message(ctx, "Msg_carried", data=[X, INJECT], ids=[X, ["x", "LF", "data", "COLON", "SP", "y"], ["CR"], []],
-                    types=[X, ["x", "CR", "LF", "id", "COLON", "d1"]], routes=ALL_ROUTES, max_msgs=1, max_ops=2, max_appends=1, view_hist=True)
+                    types=[X, ["x", "CR", "LF", "id", "COLON", "d1"]], routes=ALL_ROUTES, max_msgs=1, max_ops=2, max_appends=1, view_hist=True, field_once=False)
     drive_message(ctx, r.stdout_path, "carried", agg, every=3, faults=False)
     extra = os.path.join(ctx.work, "res-fields-extra.json")
     core.run_driver(ctx, ["fields-extra", "-out", extra])
